@@ -87,6 +87,8 @@ pub enum BodyEnd {
     Clean,
     /// The body fails with this status once `at` bytes have been delivered.
     Error { at: usize, status: Status },
+    /// After the data the peer keeps the stream open and silent: `Pending` for ever, no wake-up.
+    NeverEnds,
 }
 
 /// Counters shared with the harness after the body moved into tonic.
@@ -157,7 +159,7 @@ impl ScriptBody {
     }
     fn limit(&self) -> usize {
         match &self.end {
-            BodyEnd::Clean => self.data.len(),
+            BodyEnd::Clean | BodyEnd::NeverEnds => self.data.len(),
             BodyEnd::Error { at, .. } => (*at).min(self.data.len()),
         }
     }
@@ -240,6 +242,9 @@ impl Body for ScriptBody {
             return Poll::Ready(Some(Ok(Frame::data(chunk))));
         }
         // data delivered up to the limit
+        if let BodyEnd::NeverEnds = &this.end {
+            return Poll::Pending;
+        }
         if let BodyEnd::Error { status, .. } = &this.end {
             if !this.errored {
                 this.errored = true;
